@@ -116,7 +116,10 @@ def run_unit(unit, rng, ctx):
     Ms = TrajectoryMetrics(gen.make_trajectory(m, sp, U - np.floor(U), time_step=dt * s, metadata={'temperature': temp}))
     ctx.check(close(Mk.tracer_diffusivity(dimensions=dim), D * k**2), f'{what}: cell x{k:.3f}: diffusivity did not scale by k^2', wit)
     ctx.check(close(Mk.particle_density(), dens / k**3), f'{what}: cell x{k:.3f}: particle density did not scale by 1/k^3', wit)
-    ctx.check(close(Mk.vibration_amplitude(), vib * k, 1e-8), f'{what}: cell x{k:.3f}: vibration amplitude {float(Mk.vibration_amplitude())!r} != k x {vib!r}', wit)
+    # a standard deviation of (nearly) equal amplitudes is rounding noise: compare on the scale of the amplitudes
+    amp_scale = float(np.abs(amps).max()) if amps.size else 1.0
+    vk = float(Mk.vibration_amplitude())
+    ctx.check(close(vk, vib * k, 1e-8) or abs(vk - vib * k) <= 1e-10 * amp_scale * k, f'{what}: cell x{k:.3f}: vibration amplitude {vk!r} != k x {vib!r}', wit)
     if np.isfinite(freq):
         fk = float(Mk.attempt_frequency()[0])
         ctx.check(close(fk, freq, 1e-8), f'{what}: cell x{k:.3f}: attempt frequency changed {freq!r} -> {fk!r}', wit)
